@@ -107,6 +107,16 @@ Fixpoint split_first_nl (l : bytes) : option (bytes * bytes) :=
            end
   end.
 
+(* len(p) > k, decided by looking at no more than k+1 bytes (same value as k <? zlen p;
+   keeps the evaluation of a long batch linear) *)
+Fixpoint longer (p : bytes) (k : nat) : bool :=
+  match p, k with
+  | [], _ => false
+  | _ :: _, O => true
+  | _ :: r, S k' => longer r k'
+  end.
+Definition exceeds (p : bytes) (k : Z) : bool := if k <? 0 then true else longer p (Z.to_nat k).
+
 Inductive wres :=
 | WOk (st : rf) (n : Z)      (* returned (n, nil) *)
 | WPanic                      (* index / slice bounds out of range *)
@@ -119,7 +129,7 @@ Inductive scan_res := SFound (a rest : bytes) | SNone | SOutOfRange.
 
 Definition window_scan (p : bytes) (j : Z) : scan_res :=
   if j <=? 0 then SNone
-  else if zlen p <=? j then SOutOfRange         (* p[j] with j >= len p *)
+  else if negb (exceeds p j) then SOutOfRange   (* p[j] with j >= len p *)
   else match firstn (S (Z.to_nat j)) p with      (* p[0..j] *)
        | [] => SOutOfRange
        | x0 :: w =>
@@ -133,7 +143,7 @@ Definition window_scan (p : bytes) (j : Z) : scan_res :=
    [clk i] = wall-clock second read by the i-th rotate() of this call. *)
 Fixpoint write_loop (fuel : nat) (clk : nat -> N) (i : nat) (st : rf) (p : bytes) (written : Z) : wres :=
   let final := WOk (set_pos (put st p) (rf_pos st + zlen p)) (written + zlen p) in
-  if rf_pos st + zlen p >? rf_max st then
+  if exceeds p (rf_max st - rf_pos st) then      (* f.pos + len(p) > f.maxSize *)
     match fuel with
     | O => WFuel
     | S fuel' =>
@@ -255,18 +265,19 @@ Definition batch_of (ls : list bytes) : bytes := concat (map term ls).
 (* ---- file.go: writeLoop + Send ---- *)
 Definition FLUSH_BYTES : Z := 500 * 1024.
 
-(* what the writer goroutine sees *)
+(* what the writer goroutine sees.  [clk g] = the wall-clock second read by the g-th rotation
+   since the channel's directory was empty (used only if this event makes the loop flush) *)
 Inductive wev :=
-| ESend (s : N) (line : bytes)     (* a request arrives (already encoded: line ++ "\n"); s = clock if it triggers a flush *)
-| EIdle (s : N).                   (* one second without a request *)
+| ESend (clk : nat -> N) (line : bytes)   (* a request arrives (already encoded: line ++ "\n") *)
+| EIdle (clk : nat -> N).                 (* one second without a request *)
 
 (* the buffer is kept as the list of encoded requests (oldest first) with its length *)
 Record wl := mkWL { wl_alive : bool; wl_rf : rf; wl_buf : list bytes; wl_len : Z; wl_blocked : bool }.
 
-Definition wl_flush (s : N) (w : wl) : option wl :=
+Definition wl_flush (clk : nat -> N) (w : wl) : option wl :=
   match wl_buf w with
   | [] => Some w                       (* io.Copy of an empty buffer performs no Write *)
-  | _ => match rf_write (fun _ => s) (wl_rf w) (concat (wl_buf w)) with
+  | _ => match rf_write (fun i => clk (length (rf_hist (wl_rf w)) + i)%nat) (wl_rf w) (concat (wl_buf w)) with
          | WOk st _ => Some (mkWL (wl_alive w) st [] 0 (wl_blocked w))
          | _ => None
          end
